@@ -137,6 +137,32 @@ func (w *world) checkTTLContext(sc *scenario) {
 		}
 	}
 
+	// a build is a background build if its Get returned before the builder did (not: whichever
+	// goroutine the library chose to run the builder on)
+	isBackground := func(b *buildRec) bool {
+		for _, gr := range l.gets {
+			if gr.idx == b.getIdx {
+				return gr.done && b.exitStep >= 0 && gr.returnStep < b.exitStep
+			}
+		}
+
+		return false
+	}
+
+	// Without a TTL cell in the caller's context a builder's WithTTL(ctx, t, true) has no holder to
+	// update by WithTTL's contract ("updates existing"); the statement ("lowered to the smallest
+	// non-zero TTL communicated by the builder") is also met if Failover provides a holder itself.
+	foldNoCell := func(g *getSpec) time.Duration {
+		t := time.Duration(0)
+		if buildOf[g.idx] != nil {
+			for _, bt := range g.builderTTL {
+				t = foldTTL(t, bt)
+			}
+		}
+
+		return t
+	}
+
 	foldFor := func(g *getSpec) time.Duration {
 		if g.ttl == 0 && !g.ttlCell {
 			return 0 // no cell: builder updates are invisible by WithTTL's contract
@@ -165,6 +191,12 @@ func (w *world) checkTTLContext(sc *scenario) {
 		if s, ok := r.val.(string); ok && tokOwner[s] != nil && buildOf[tokOwner[s].idx].task == r.task {
 			g := tokOwner[s]
 			want := foldFor(g)
+			if g.ttl == 0 && !g.ttlCell && r.ttl != want && r.ttl == foldNoCell(g) {
+				c.Class("builder-ttl-applied-without-caller-cell")
+
+				want = r.ttl
+			}
+
 			c.Assert(r.ttl == want, "final-store-ttl", "final store of %s for g%d (caller ttl=%v cell=%v, builder updates %v) carried TTL %v, want %v",
 				s, g.idx, g.ttl, g.ttl != 0 || g.ttlCell, g.builderTTL, r.ttl, want)
 
@@ -207,7 +239,7 @@ func (w *world) checkTTLContext(sc *scenario) {
 
 		// a builder's update is documented to reach "the original context" it was given; whether the
 		// detached context of a background build shares the caller's TTL holder is not specified
-		if b := buildOf[g.idx]; b != nil && strings.Contains(b.task, ".bg") && got == g.ttl {
+		if b := buildOf[g.idx]; b != nil && (isBackground(b) || strings.Contains(b.task, ".bg")) && got == g.ttl {
 			continue
 		}
 
@@ -237,7 +269,7 @@ func (w *world) checkTTLContext(sc *scenario) {
 		}
 
 		g := sc.gets[b.getIdx]
-		bgBuild := len(b.task) > 3 && b.task[len(b.task)-4:len(b.task)-1] == ".bg"
+		bgBuild := isBackground(b)
 
 		c.Assert(b.userVal == interface{}("user-"+itoa(g.idx)), "build-ctx-values", "builder for g%d saw ctx.Value(userKey) = %v", g.idx, b.userVal)
 
